@@ -3,6 +3,7 @@ package main
 // ops.go: the operation vocabulary (mirrors M_Ledger.op), its execution on the real app and its Coq rendering.
 
 import (
+	"errors"
 	"fmt"
 	"math/big"
 	"strings"
@@ -37,6 +38,8 @@ type Op struct {
 	H       int64      `json:"h,omitempty"`
 	Timeout int64      `json:"timeout,omitempty"` // read back from the real record
 	To      int        `json:"to,omitempty"`      // inbound bridge call: account of `to`
+	S       int        `json:"s,omitempty"`       // inbound bridge call: account of the (external) sender
+	Memo    int        `json:"memo,omitempty"`    // inbound bridge call: 0 = empty memo, 1 = some other memo, 2 = exactly the MemoSendCallTo marker
 	Park    bool       `json:"park,omitempty"`    // SendToFx: observe only; the pending claim is executed later (ExecParked)
 }
 
@@ -74,7 +77,7 @@ func (o Op) Coq() string {
 	case "BridgeCallResult":
 		return f("OBridgeCallResult", zi(o.C), z(o.ID), lib.Bool(o.Flag))
 	case "BridgeCallIn":
-		return f("OBridgeCallIn", zi(o.C), zi(o.A), zi(o.B), toksCoq(o.Toks), lib.Bool(o.Flag), z(o.Timeout))
+		return f("OBridgeCallIn", zi(o.C), zi(o.S), zi(o.To), zi(o.B), toksCoq(o.Toks), lib.Bool(o.Memo == 2), lib.Bool(o.Flag), z(o.Timeout))
 	case "ConvertCoin":
 		return f("OConvertCoin", zi(o.T), zi(o.A), zi(o.B), z(o.X))
 	case "ConvertERC20":
@@ -352,7 +355,17 @@ func (w *World) Exec(o *Op) error {
 	case "Erc20Transfer":
 		return w.try(func(ctx sdk.Context) error {
 			data, _ := fip20.Pack("transfer", w.Hex(o.B), big.NewInt(o.X))
-			return w.evmTx(ctx, w.Hex(o.A), w.Toks[o.T].ERC20, nil, data)
+			res := w.C.EvmCall(ctx, w.Hex(o.A), &w.Toks[o.T].ERC20, nil, 8_000_000, data)
+			if res.Err != nil {
+				return res.Err
+			}
+			if res.Failed {
+				return errors.New("evm: " + res.VmError + " " + revertReason(res.Ret))
+			}
+			if len(res.Ret) == 32 && new(big.Int).SetBytes(res.Ret).Sign() == 0 {
+				return errors.New("transfer returned false") // a token that does not revert: nothing was moved
+			}
+			return nil
 		})
 	case "WfxDeposit":
 		return w.try(func(ctx sdk.Context) error {
